@@ -207,6 +207,18 @@ pub fn c08_case(cfg: &Cfg, rep: &mut Report, case_seed: u64) {
             }
         }
     }
+    // every consumer of the parse result attaches each formula to the statement it was written for: all ways
+    // to the stable models (native, biodivine, the rewriting prepared from the parser, hybrid), in declaration
+    // order and re-sorted, against the definition (the C03 oracle on this layout of the file)
+    if !deep && rng.chance(1, 4) {
+        let case = crate::sem::SmallCase { sem: oracle::sem::Sem::new(&g.ac), bio_ok: g.bio_safe(), text: r.text.clone(), g: g.clone() };
+        let before = rep.violations.len();
+        crate::sem::c03_check(cfg, rep, case_seed, &case);
+        rep.count("positives_followed_to_the_stable_models", 1);
+        if rep.violations.len() > before {
+            return;
+        }
+    }
     // negatives derived from this positive
     c08_negatives(rep, &g, &r.text, &mut rng, case_seed);
 }
